@@ -156,6 +156,10 @@ func VerifyFunc(P *Program, fn *ssa.Function, c *Contract, cf *ContractFile, ins
 	}
 	for _, fv := range fn.FreeVars {
 		v := e.havocVal(fv.Type(), "fv."+fv.Name(), st)
+		if _, isPtr := fv.Type().Underlying().(*types.Pointer); isPtr {
+			// captured variables are captured by reference: the cell always exists
+			e.assume("true", sNot(sEq(v.S, "0")))
+		}
 		f.freeVars = append(f.freeVars, v)
 	}
 	f.entry = st
